@@ -683,11 +683,11 @@ def classify_extend(kind_, c0, b, r, x=None, y=None, v=None):
   if kind_ == 'narrows':
     if isinstance(y, t.Tuple) and isinstance(x, t.Tuple) and y.fixed_length and len(y.elements) != y.min_size:
       return 'C04/extend-narrows/Tuple._extend/variable-sizes-meet', 'a variable-length Tuple whose sizes meet after extension keeps one element field and accepts 1-tuples'
-    if isinstance(y, t.Dict) and y.frozen:
-      return 'C04/extend-narrows/Dict._extend/frozen-default-regenerated', 'Dict._extend replaces the (frozen) default by the schema-generated one'
     if isinstance(x, t.Union) and any(acc_py(c, v) for c in x.candidates):
       return ('C04/extend-narrows/extend(Union)/earlier-candidate-captures-value',
               'a spec extends the matching candidate of a Union base, but Union.apply hands the value to the first candidate whose value type matches (bool is an int, Any matches everything), which refuses it')
+    if isinstance(y, t.Dict) and y.frozen:
+      return 'C04/extend-narrows/Dict._extend/frozen-default-regenerated', 'Dict._extend replaces the (frozen) default by the schema-generated one'
     return 'C04/extend-narrows/%s.extend(%s)/value-%s' % (cname(y), cname(x), type(v).__name__), 'the extended spec accepts a value the base refuses'
   if kind_ == 'base-compatible':
     if isinstance(y, t.Enum) and not isinstance(x, t.Enum):
@@ -1044,10 +1044,12 @@ def run(ctx):
   pool = [gen.spec(rng.choice([0, 1, 1, 2, 2, 3])) for _ in range(nspec)]
   pool += rng.sample(flats, ctx.scale(60, len(flats))) if not ctx.thorough else flats
   napply = 0
+  hyp_specs = []
   pool = [w['spec'] for w in CORPUS_APPLY] + pool
   for t in pool:
     ctx.hist('spec_kind', kind(t)); ctx.hist('spec_mods', 'noneable=%d default=%d frozen=%d' % (_m(t)[0], int(bool(_m(t)[1])), _m(t)[2]))
     s = build(t)
+    hyp_specs.append(t)
     before = copy.deepcopy(s)
     eq0 = (s == before)      # Union.__eq__ is not reflexive on copies for some candidate lists; compare with this
     if not eq0: ctx.hist('spec_eq_copy', 'spec != deepcopy(spec) before any apply')
@@ -1086,6 +1088,7 @@ def run(ctx):
   noracle = 0
   for (at, bt), src in [(p, 'random') for p in pairs] + [(p, 'flat') for p in sweep]:
     a, b = build(at), build(bt)
+    hyp_specs.append(at); hyp_specs.append(bt)
     vals = None
     for (xt, yt, x, y) in ((at, bt, a, b), (bt, at, b, a)) if src == 'random' or not ctx.thorough else ((at, bt, a, b),):
       out = impl_compat(x, y)
@@ -1100,6 +1103,7 @@ def run(ctx):
       add_case([flags, 2, xt, yt], out, d, 'extend')
       ctx.hist('extend', ('%s.extend(%s) ' % (kind(xt), kind(yt)) if src == 'random' else 'flat ') + ('ok' if r is not None else {1: 'TypeError', 2: 'ValueError', 3: 'KeyError'}.get(out[1], 'other')))
       if r is not None:
+        if out[1] != [99]: hyp_specs.append(out[1])
         if vals is None: vals = values_for(at, rng, 30) + values_for(bt, rng, 30)
         rv = vals
         if out[1] != [99] and out[1] != xt:
@@ -1107,6 +1111,18 @@ def run(ctx):
         noracle += check_extend(build(xt), build(yt), r, rv, hit, dict(op='extend', c=xt, b=yt))
   ctx.extra['oracle_value_checks'] = noracle
   ctx.extra['apply_cases'] = napply
+
+  # ---- theorem hypotheses on the states the library produced (constructed specs and extension results) --------
+  seen_h = set()
+  nh = 0
+  for t in hyp_specs:
+    key = trlib.to_line(t)
+    if key in seen_h: continue
+    seen_h.add(key)
+    cases.append([flags, 3, t]); impl_outs.append([1, 1, 1]); descr.append(dict(op='hypotheses', spec=t, spec_text=show(t)))
+    nh += 1
+  ctx.traces_validated = nh
+  ctx.extra['theorem_hypotheses_checked_on_specs'] = nh
 
   # ---- model ----------------------------------------------------------------------------------------
   model_outs = ctx.model_run(cases)
